@@ -1,0 +1,15 @@
+//go:build verif
+
+package deque
+
+// VerifState exposes the raw ring-buffer state for verification harnesses. Read-only.
+func (d *Deque[T]) VerifState() (capacity int, isNil bool, front int, back int, gen int) {
+	return len(d.a), d.a == nil, d.front, d.back, d.gen
+}
+
+// VerifSlots returns a copy of the raw backing buffer. Read-only.
+func (d *Deque[T]) VerifSlots() []T {
+	out := make([]T, len(d.a))
+	copy(out, d.a)
+	return out
+}
